@@ -27,7 +27,8 @@ RULE = (
     "+, *, star, kleene_plus, reverse, injective rename, renumber; regime QQ or BOOL on the base class, "
     "FLOAT on the field class; every string up to length 3; non-trivial = some operand of a star or "
     "product has an epsilon arc or non-zero weight on the empty string, and some string has non-zero "
-    "weight; distinct = SHA-1 of the case"
+    "weight; in a third of the cases every operation is applied twice to the same operand objects (the second "
+    "result is used), and every operand must still denote its own language afterwards; distinct = SHA-1 of the case"
 )
 ASSUMPTIONS = [
     "star is only applied where the series converges: the generator scales the operand so that its weight on the empty string is < 3/4 (QQ/FLOAT)",
@@ -37,7 +38,7 @@ ASSUMPTIONS = [
 
 
 def examples(tier):
-    return 800 if tier == "quick" else 16000
+    return 2400 if tier == "quick" else 32000
 
 
 def strings():
@@ -98,39 +99,62 @@ def den(M, e, leafs):
     raise ValueError(op)
 
 
-def build(M, K, e, leafs, cls):
-    "the same expression through the library"
+def build(M, K, e, leafs, cls, trace=None, twice=False):
+    """the same expression through the library.  Every intermediate automaton is recorded in
+    `trace` (expression, object) so that the caller can check that using an automaton as an operand
+    did not change it; with `twice` every operation is applied a second time to the same operand
+    objects and the second result is the one used (A.star() must be star(A) every time)."""
     op = e[0]
     R = M.lib
-    if op == "leaf":
-        return lib_wfsa(M, leafs[e[1]], cls)
-    if op == "lift":
-        return K.lift(e[1], M.to_lib(M.parse(e[2])), R=R)
-    if op == "from_string":
-        return K.from_string("".join(e[1]) if e[2] == "str" else tuple(e[1]), R)
-    if op == "from_strings":
-        return K.from_strings(["".join(x) if e[2] == "str" else tuple(x) for x in e[1]], R)
-    if op == "zero":
-        return build(M, K, e[1], leafs, cls).zero if cls == "base" else K(R)
-    if op == "one":
-        return build(M, K, e[1], leafs, cls).one if cls == "base" else K.lift("", R.one, R=R)
-    if op == "scale":
-        return K.lift("", M.to_lib(M.parse(e[1])), R=R) * build(M, K, e[2], leafs, cls)
-    if op == "+":
-        return build(M, K, e[1], leafs, cls) + build(M, K, e[2], leafs, cls)
-    if op == "*":
-        return build(M, K, e[1], leafs, cls) * build(M, K, e[2], leafs, cls)
-    if op == "star":
-        return build(M, K, e[1], leafs, cls).star()
-    if op == "plus":
-        return build(M, K, e[1], leafs, cls).kleene_plus()
-    if op == "reverse":
-        return build(M, K, e[1], leafs, cls).reverse
-    if op == "rename":
-        return build(M, K, e[2], leafs, cls).rename(renamer(e[1]))
-    if op == "renumber":
-        return build(M, K, e[1], leafs, cls).renumber
-    raise ValueError(op)
+
+    def sub(x):
+        return build(M, K, x, leafs, cls, trace, twice)
+
+    def result():
+        if op == "leaf":
+            return lambda: lib_wfsa(M, leafs[e[1]], cls)
+        if op == "lift":
+            return lambda: K.lift(e[1], M.to_lib(M.parse(e[2])), R=R)
+        if op == "from_string":
+            return lambda: K.from_string("".join(e[1]) if e[2] == "str" else tuple(e[1]), R)
+        if op == "from_strings":
+            return lambda: K.from_strings(["".join(x) if e[2] == "str" else tuple(x) for x in e[1]], R)
+        if op == "zero":
+            A = sub(e[1])
+            return lambda: A.zero if cls == "base" else K(R)
+        if op == "one":
+            A = sub(e[1])
+            return lambda: A.one if cls == "base" else K.lift("", R.one, R=R)
+        if op == "scale":
+            A = sub(e[2])
+            return lambda: K.lift("", M.to_lib(M.parse(e[1])), R=R) * A
+        if op in ("+", "*"):
+            A, B = sub(e[1]), sub(e[2])
+            return (lambda: A + B) if op == "+" else (lambda: A * B)
+        if op == "star":
+            A = sub(e[1])
+            return lambda: A.star()
+        if op == "plus":
+            A = sub(e[1])
+            return lambda: A.kleene_plus()
+        if op == "reverse":
+            A = sub(e[1])
+            return lambda: A.reverse
+        if op == "rename":
+            A = sub(e[2])
+            return lambda: A.rename(renamer(e[1]))
+        if op == "renumber":
+            A = sub(e[1])
+            return lambda: A.renumber
+        raise ValueError(op)
+
+    f = result()
+    m = f()
+    if twice:
+        m = f()
+    if trace is not None:
+        trace.append((e, m))
+    return m
 
 
 # ---- generation -----------------------------------------------------------------------------
@@ -182,7 +206,7 @@ def strategy(draw, tier="quick"):
     e = draw(expr(M, regime if regime != "FLOAT" else "QQ", leafs, 3 if tier == "thorough" else draw(st.sampled_from([2, 3]))))
     for lf in leafs:
         lf["regime"] = regime
-    return {"regime": regime, "cls": cls, "expr": e, "leafs": leafs}
+    return {"regime": regime, "cls": cls, "expr": e, "leafs": leafs, "twice": draw(st.integers(0, 2)) == 0}
 
 
 def _ops(e, acc):
@@ -219,7 +243,10 @@ def check(case, ctx):
     ctx.cls("regime:" + case["regime"], "cls:" + cls, *("op:" + o for o in _ops(e, set())))
     ctx.nontrivial = _interesting(M, e, leafs) and any(not M.is_zero(w) for w in want.values())
 
-    m = ctx.call("build", build, M, K, e, leafs, cls)
+    trace = []
+    twice = bool(case.get("twice"))
+    ctx.cls("ops_applied_twice" if twice else None)
+    m = ctx.call("build", build, M, K, e, leafs, cls, trace, twice)
     if isinstance(m, LibRaised):
         return
     ref = ctx.call("read", lambda: autoref.Weights(RA.from_lib(M, m)))
@@ -232,4 +259,19 @@ def check(case, ctx):
                 ref = LibRaised(None)
         have = ctx.call("call", m, xs)
         if not ctx.eq("call", M, have, want[xs], what=f"xs={xs}"):
+            break
+
+    # every automaton that served as an operand still denotes its own language afterwards
+    # ((A+B)(x) = A(x)+B(x) is a statement about A and B as they are after the construction too)
+    for sub_e, obj in trace[:-1]:
+        if sub_e[0] in ("lift", "zero", "one", "from_string"):
+            continue
+        w = den(M, sub_e, leafs)
+        r = ctx.call("read_operand", lambda: autoref.Weights(RA.from_lib(M, obj)))
+        if isinstance(r, LibRaised):
+            continue
+        bad = next((xs for xs in strings() if not M.eq(r(xs), w[xs])), None)
+        ctx.evals += 1
+        if bad is not None:
+            ctx.fail("operand|changed", f"operand {sub_e[0]} no longer denotes its language after being used: xs={bad}: {M.show(r(bad))}, was {M.show(w[bad])}")
             break
